@@ -1618,7 +1618,14 @@ pub fn program(seed: u64, i: u64, size: usize) -> Value {
         let e = g.value_of(&t, 2);
         g.in_const = false;
         consts.push(json!({"x": name, "ty": g.tyj(&t), "e": e}));
-        g.consts.push(Variable { name, ty: t, kind: Kind::Const, minlen: 0, depth: 0, hidden: false });
+        g.consts.push(Variable { name: name.clone(), ty: t.clone(), kind: Kind::Const, minlen: 0, depth: 0, hidden: false });
+        // (eighth round of seeded changes) a constant of word type is copied by value: `const K2: W = K1;` names the first one
+        // bare in the initialiser of the second.  No draw: every word constant gets its copy.
+        if g.is_word(&t) {
+            let copy = g.fresh("K");
+            consts.push(json!({"x": copy, "ty": g.tyj(&t), "e": var(&name)}));
+            g.consts.push(Variable { name: copy, ty: t, kind: Kind::Const, minlen: 0, depth: 0, hidden: false });
+        }
     }
     let mut fns = Vec::new();
     for _ in 0..(1 + g.rng.below(4)) {
